@@ -505,7 +505,7 @@ func RunFull(c *gen.Ctx, prop string, cfgs []xeng.Config, nops, perOp int, singl
 		return err
 	}
 	if schedules {
-		nstray, err := strayElementSchedules(meta, c.Thorough())
+		nstray, err := strayElementSchedules(c.OutDir, meta, c.Thorough())
 		if err != nil {
 			return err
 		}
